@@ -440,6 +440,120 @@ def action_level_stateful(ctx: Ctx, runs: list[dict]) -> dict:
     return info
 
 
+UNIT_TRACE_CFG = """SPECIFICATION TSpec
+CONSTANTS
+  W = %(w)d
+  NOps = %(nops)d
+  K = 100000
+  MaxFail = %(mf)d
+  NPhases = 5
+  FixDrain = TRUE
+  FixWorkerErr = TRUE
+  AllowStop = TRUE
+  AllowFault = TRUE
+  AliveCheck = TRUE
+  PhaseOn = {%(on)s}
+  AllowCtrlC = TRUE
+  MaxNFE = 20
+INVARIANT Report
+CHECK_DEADLOCK FALSE
+"""
+
+
+def unit_trace_lines(run: dict) -> "list[dict] | str":
+    """Projection of a recorded run without a stateful phase to the alphabet of spec/UnitTrace.tla (a string = why not)."""
+    hdr = run["hdr"]
+    if hdr is None or hdr.get("cli"):
+        return "not-in-process"
+    if hdr["enabled"][0] or hdr["enabled"][4]:
+        return "probing-or-stateful-enabled"     # probing has its own event shape; the stateful phase is Stateful.tla's
+    if any(ln["e"] in ("CRASH", "HANG", "TDEATH") for ln in run["lines"]):
+        return "crash-or-hang"
+    if hdr.get("rateL"):
+        return "rate-limited"
+    out = []
+    blank = {"e": "", "k": "", "st": "", "w": 0, "op": 0, "ph": 0, "fails": 0, "limit": False, "site": ""}
+    thr_of: dict = {}
+    phase = 0
+    for ln in run["lines"]:
+        e = ln["e"]
+        if e == "Y" and ln["k"] == "PS":
+            phase = ln["ph"]
+            thr_of = {}          # every unit phase starts its own worker threads
+        w = 0
+        if e in ("QPUT", "SEND", "WEXIT", "FAULT") and ln.get("thr"):
+            w = thr_of.setdefault(ln["thr"], len(thr_of) + 1)
+            if w > hdr["workers"]:
+                return "more-threads-than-workers"
+        if e == "QPUT":
+            out.append(dict(blank, e="Q", k=ln["k"], st=ln["st"], w=w, op=ln["op"]))
+        elif e == "SEND":
+            out.append(dict(blank, e="SEND", w=w, op=ln["op"]))
+        elif e == "WEXIT":
+            out.append(dict(blank, e="WEXIT", w=w))
+        elif e == "FAULT":
+            out.append(dict(blank, e="FAULT", w=w, site=ln["site"], op=ln["op"]))
+        elif e in ("STOP", "CTRLC"):
+            out.append(dict(blank, e=e))
+        elif e == "COUNT":
+            out.append(dict(blank, e="COUNT", fails=ln["fails"], limit=bool(ln["limit"])))
+        elif e == "Y":
+            out.append(dict(blank, e="Y", k=ln["k"], st=ln["st"], ph=ln["ph"] if ln["k"] in ("PS", "PF") else 0, op=ln["op"]))
+    return out
+
+
+def action_level_unit(ctx: Ctx, runs: list[dict]) -> dict:
+    """Every free-running run of the unit phases must be a behaviour of Engine.tla, action by action (spec/UnitTrace.tla)."""
+    batches: dict[tuple, list] = {}
+    index: dict[tuple, list[int]] = {}
+    skipped: dict[str, int] = {}
+    for i, r in enumerate(runs):
+        if "env_stop" in r.get("desc", {}):
+            continue        # forced schedules are validated by EngineTrace.tla
+        lines = unit_trace_lines(r) if r.get("hdr") else "no-header"
+        if isinstance(lines, str):
+            if lines not in ("probing-or-stateful-enabled", "not-in-process"):
+                skipped[lines] = skipped.get(lines, 0) + 1
+            continue
+        hdr = r["hdr"]
+        on = tuple(i + 1 for i, x in enumerate(hdr["enabled"]) if x)
+        key = (int(hdr["workers"]), int(hdr["nops"]), int(hdr["maxfail"]), on)
+        batches.setdefault(key, []).append({"stop": any(ln["e"] == "STOP" for ln in lines), "unique": bool(hdr["unique"]),
+                                            "fault": bool(hdr["hasfault"]), "lines": lines})
+        index.setdefault(key, []).append(i)
+    info = {"runs": 0, "accepted": 0, "rejected": [], "states": 0, "outside_fragment": skipped, "batches": len(batches)}
+    jobs = []
+    keys = sorted(batches)
+    for n, key in enumerate(keys):
+        path = ctx.path("utrace_%d.json" % n)
+        tlc.write_json(path, batches[key])
+        cfg = ctx.path("UnitTrace_%d.cfg" % n)
+        with open(cfg, "w") as fd:
+            fd.write(UNIT_TRACE_CFG % {"w": key[0], "nops": key[1], "mf": key[2], "on": ", ".join(str(x) for x in key[3])})
+        jobs.append({"module": "UnitTrace", "cfg": cfg, "env": {"OBS_FILE": path}, "workers": 1, "timeout": 1800, "heap": "4g"})
+    results = tlc.run_many(jobs, parallel=6) if jobs else []
+    for key, res in zip(keys, results):
+        tlc.require_ok(res, "UnitTrace %s" % (key,))
+        acc = {p[1] for p in res.prints if isinstance(p, list) and p and p[0] == "ACCEPT"}
+        inv = {p[1] for p in res.prints if isinstance(p, list) and p and p[0] == "INVARIANT"}
+        stuck: dict[int, int] = {}
+        for p in res.prints:
+            if isinstance(p, list) and p and p[0] == "STUCK":
+                stuck[p[1]] = max(stuck.get(p[1], 0), p[2])
+        info["runs"] += len(batches[key])
+        info["states"] += res.distinct
+        for k in range(1, len(batches[key]) + 1):
+            if k in acc and k not in inv:
+                info["accepted"] += 1
+            else:
+                line = stuck.get(k, 0)
+                lines = batches[key][k - 1]["lines"]
+                info["rejected"].append({"run": index[key][k - 1], "line": line, "invariant": k in inv,
+                                         "next": lines[line - 1] if 0 < line <= len(lines) else None,
+                                         "context": [(x["e"], x["k"], x["w"], x["op"], x["st"]) for x in lines[max(0, line - 7):line]]})
+    return info
+
+
 def run_property(ctx: Ctx, pid: str, design_cfgs: list[str]) -> Outcome:
     out = Outcome()
     rng = random.Random(ctx.seed * 7919 + int(pid[1:]))
